@@ -37,6 +37,27 @@ fn exec<S: Crystal>(initial: S, sc: &Scenario, which: &str) -> Result<RunOut, St
                 ));
             } else if tr.complete() && !tr.final_ok.iter().any(|x| *x) {
                 out.violate(Violation::new("returned-not-last-accepted", b.obs.len() as u64, format!("chain op {}: the returned crystal is neither the last accepted proposal nor the restored state", b.op)));
+            } else if tr.complete() {
+                let zero_kt = cfg.kt_start == 0.0;
+                let res = tr.feasible(x0_score, |e: &EdgeCtx| {
+                    if e.null {
+                        return Ok(());
+                    }
+                    match (e.prop_score, e.parent_score) {
+                        (None, _) if e.accepted => Err("it would have been accepted although it has no score".to_string()),
+                        (Some(p), _) if !p.is_finite() && e.accepted => Err(format!("it would have been accepted although its score is {}", p)),
+                        (Some(p), Some(c)) if p > c && !e.accepted => Err(format!("it would have been rejected although it is strictly better ({:e} > {:e})", p, c)),
+                        (Some(p), Some(c)) if p < c && e.accepted && zero_kt => Err(format!("it would have been accepted at zero temperature although it is strictly worse ({:e} < {:e})", p, c)),
+                        _ => Ok(()),
+                    }
+                });
+                if let Err((k, why)) = res {
+                    out.violate(Violation::new("returned-a-discarded-trial", k as u64, format!("chain op {}: the returned crystal can only be explained by treating the proposal of score() call {} differently from what the acceptance rule allows: {}", b.op, k, why)));
+                }
+                match b.after.score() {
+                    Some(x) if x.is_finite() => {}
+                    other => out.violate(Violation::new("returned-a-discarded-trial", b.obs.len() as u64, format!("chain op {}: the returned crystal's score is {:?}", b.op, other))),
+                }
             }
         }
         if which == "C19" {
